@@ -265,7 +265,13 @@ impl Changeset {
         while let Some(change) = self.undos.pop() {
             match change {
                 Change::Begin => {
-                    waiting_for_begin -= 1;
+                    if waiting_for_begin > 0 {
+                        waiting_for_begin -= 1;
+                    } else {
+                        // marker of a group that is still open (undo requested inside it): the
+                        // group is gone, `end` must not close it any more
+                        self.undo_group_level = self.undo_group_level.saturating_sub(1);
+                    }
                 }
                 Change::End => {
                     waiting_for_begin += 1;
